@@ -143,14 +143,14 @@ fn build(c: &Case) -> Built {
                 // the slot follows from the atom's text (as in a real node: equal atoms meet their earlier entry again); half of
                 // the messages squeeze their atoms into six slots, so that slots are overwritten and re-used all the time
                 let space = if seed % 2 == 0 { 6 } else { 2048 };
-                let mut slot_of = |a: &str| Some(if a.starts_with("slot_") { 777 } else { (atom_hash(a).wrapping_add(seed >> 15)) % space });
+                let mut slot_of = |a: &str| Some(if a == "slot_b" { 256 } else if a.starts_with("slot_") { 255 } else { (atom_hash(a).wrapping_add(seed >> 15)) % space });
                 let (b, _) = sender_encode(&control, payload.as_ref(), cache, &mut slot_of, &mut Canonical);
                 stream.extend_from_slice(&frame4(&b));
                 expected.push((control, payload, false));
             }
             Form::Fragmented(seed, cuts) => {
                 let space = if seed % 2 == 0 { 6 } else { 2048 };
-                let mut slot_of = |a: &str| Some(if a.starts_with("slot_") { 777 } else { (atom_hash(a).wrapping_add(seed >> 15)) % space });
+                let mut slot_of = |a: &str| Some(if a == "slot_b" { 256 } else if a.starts_with("slot_") { 255 } else { (atom_hash(a).wrapping_add(seed >> 15)) % space });
                 let (b, refs) = sender_encode(&control, payload.as_ref(), cache, &mut slot_of, &mut Canonical);
                 let body_len = b.len() - 2;
                 let pts: Vec<usize> = cuts.iter().map(|p| (*p as usize * body_len) / 1000).collect();
@@ -528,7 +528,8 @@ pub fn oracle(c: &Case) -> Verdict {
 
 fn strategy() -> impl Strategy<Value = Case> {
     let term = || arb_value(GenCfg { depth: 3, size: 10, heavy: false, ..GenCfg::std() });
-    // (a few payloads draw their atoms from three names that all live in one cache slot: written, overwritten, referred to again)
+    // (a few payloads draw their atoms from three names, two of which share the last slot of segment 0 while the third sits in
+    // the first slot of segment 1: written, overwritten, referred to again, next to a segment boundary)
     let big = prop_oneof![
         6 => term(),
         1 => (1000usize..200_000).prop_map(|n| Value::binary(&vec![0xAB; n])),
